@@ -5,6 +5,7 @@ printed form as the model driver, so "the ring refines the bounded FIFO" is an
 equation between output lists.
 -/
 import Golib.Model.C10Ring
+import Golib.Model.C10Sync
 
 namespace Golib.C10
 open Golib.Proto
@@ -55,5 +56,32 @@ def Ring.run (r : Ring) : List Op → Option (Ring × List String)
       match Ring.run r1 ops with
       | none => none
       | some (r2, os) => some (r2, o :: os)
+
+/-- The SyncRing operations are the queue operations of the same spec. -/
+def SOp.toOp : SOp → Op
+  | .push v => .push v
+  | .pop => .pop
+  | .len => .len
+  | .cap => .cap
+  | .isEmpty => .isEmpty
+  | .isFull => .isFull
+
+/-- One honest push/pop pair on an empty ring: both must succeed and the pop must return
+the value just pushed (`none` otherwise). -/
+def SyncRing.pushPop (r : SyncRing) (v : Int) : Option SyncRing :=
+  match r.push v with
+  | some (r1, true) =>
+    match r1.pop with
+    | some (r2, x, true) => if x = v then some r2 else none
+    | _ => none
+  | _ => none
+
+/-- `k` honest pairs pushing the values `vs 0, vs 1, …`. -/
+def SyncRing.pairs (vs : Nat → Int) : Nat → SyncRing → Option SyncRing
+  | 0, r => some r
+  | k + 1, r =>
+    match SyncRing.pairs vs k r with
+    | none => none
+    | some r' => r'.pushPop (vs k)
 
 end Golib.C10
